@@ -245,6 +245,10 @@ Definition sum_raw (e : expr) (rs : list var) : expr :=
   | _ => if existsb bad_range rs then EErr TypeError else ESum e rs
   end.
 
+(* a range occurs as the intervention value of a counterfactual child *)
+Definition iv_in_ranges (rs : list var) (c : var) : bool :=
+  match vk c with KCf => existsb (fun i : nat * bool => mem (V (fst i)) rs) (vi c) | _ => false end.
+
 (* Sum.simplify (repaired: a sum over more variables than the joint keeps the extra ranges) *)
 Definition sum_simplify_gen (old : bool) (e : expr) (rs : list var) : expr :=
   match e with
@@ -252,6 +256,9 @@ Definition sum_simplify_gen (old : bool) (e : expr) (rs : list var) : expr :=
       let bases := dedup (map get_base ch) in
       (* dict base -> child: a later child with the same base replaces the earlier value *)
       let child_of (b : var) := match find (fun c => eqb (get_base c) b) (rev ch) with Some c => c | None => b end in
+      if negb old && (negb (Nat.eqb (List.length bases) (List.length ch)) || existsb (iv_in_ranges rs) ch)
+      then sum_raw e rs     (* repaired: children sharing a name, or a range that is an intervention value below a child *)
+      else
       if set_eqb rs bases then EOne
       else if subset bases rs then
              (if old then EOne else sum_raw EOne (upgrade_ordering (diff rs bases)))
